@@ -64,9 +64,14 @@ CHECKS = {
         design="5/C12"),
 }
 
+CHECKS["C13"] = dict(
+    technique="property-based testing with a counting global allocator as oracle (generated inputs through run/process with fixed-capacity buffers), plus a fixed build probe (#![no_std] staticlib without allocator)",
+    text="Generated streams (valid, faulty, garbage, chunked) are executed against a no-alloc fixture with microscpi built with default features; a counting #[global_allocator] must see 0 allocations inside run/process. The static half builds microscpi into a #![no_std] static library that has a panic handler and no global allocator.",
+    note="Dynamic half covers the paths exercised; static half covers every instantiated path of this fixture (host target only - no bare-metal target is installed). String responses (std) are excluded.",
+    design="5/C13")
+
 PENDING = {
     "C01": "check not built yet (in progress): generated-interface pipeline",
-    "C13": "check not built yet (in progress)",
     "C14": "check not built yet (in progress): generated-interface pipeline",
 }
 
@@ -89,7 +94,7 @@ def main():
         })
     manifest = {
         "version": 1,
-        "setup_cmd": "cd /verif/harness && CARGO_NET_OFFLINE=true cargo build --release --offline -q",
+        "setup_cmd": "cd /verif/harness && CARGO_NET_OFFLINE=true cargo build --release --offline -q && CARGO_NET_OFFLINE=true cargo build --release --offline -q -p noalloc && cd nostd_probe && CARGO_NET_OFFLINE=true cargo build --release --offline -q",
         "hooks": {
             "guard": "microscpi_verif",
             "enable": "no hooks are used: every check observes microscpi through its public API (Interface::run/process, parser::parse, ErrorHandler, Adapter, Write, ErrorQueue) only",
